@@ -699,6 +699,12 @@ def world_rule3(pid):
         name, table = T[kind]
         if impl.startswith("ok accepted-with-foreign-group") and pid in ("C06", "C08", "C19"):
             return f"{pid} the permissionless {name} went through on a bank that belongs to ANOTHER group than the one passed: the bank is run under foreign settings: {op[:400]}"
+        if impl.startswith("ok accepted-with-foreign-record") and pid in ("C10", "C08"):
+            return f"{pid} a {name} went through with a liquidation record that is NOT the account's own: control over the account is recorded elsewhere: {op[:400]}"
+        if impl.startswith("ok accepted-for-someone-else-than-the-receiver") and pid in ("C10", "C08"):
+            return f"{pid} a {name} went through signed by someone else than the receiver the account's record names: {op[:400]}"
+        if impl.startswith("ok accepted-for-someone-else-than-the-authority") and pid in ("C11", "C08"):
+            return f"{pid} a {name} went through signed by someone else than the account's authority: {op[:400]}"
         if impl.startswith("ok accepted-with-wrong-fee-ata") and pid in ("C19", "C01"):
             return f"{pid} fee collection went through with a program-fee destination that is not the global fee wallet's token account for the bank's mint: {op[:400]}"
         if impl.startswith("ok") and model.startswith("err"):
